@@ -26,6 +26,7 @@ type token struct {
 	end  int  // byte offset after the token
 	nl   bool // a line terminator precedes the token
 	tmpl int  // for tTemplate: 0 complete, 1 head, 2 middle, 3 tail
+	block bool // for "{": opens a block/body (not an object literal or pattern)
 }
 
 var puncts = []string{
@@ -53,6 +54,7 @@ func tokenize(src string) []token {
 	// stmtAfter[k] records, for every open "(" / "{" / "[", whether a statement (and therefore
 	// possibly a regular expression) may follow its closing bracket.
 	var stmtAfter []bool
+	var kinds []byte // 'B' block, 'O' object literal/pattern, 'P' paren, 'S' square
 	lastClosedStmt := false
 	nl := false
 	i := 0
@@ -288,6 +290,7 @@ func tokenize(src string) []token {
 			}
 		default:
 			matched := ""
+			openBlock := false
 			for _, p := range puncts {
 				if strings.HasPrefix(src[i:], p) {
 					if p == "?." && i+2 < n && isDigit(src[i+2]) {
@@ -304,8 +307,10 @@ func tokenize(src string) []token {
 			case "(":
 				prevKw := len(toks) > 0 && toks[len(toks)-1].k == tIdent && (toks[len(toks)-1].s == "if" || toks[len(toks)-1].s == "while" || toks[len(toks)-1].s == "for" || toks[len(toks)-1].s == "with")
 				stmtAfter = append(stmtAfter, prevKw)
+				kinds = append(kinds, 'P')
 			case "[":
 				stmtAfter = append(stmtAfter, false)
+				kinds = append(kinds, 'S')
 			case "{":
 				brace++
 				block := true
@@ -315,12 +320,36 @@ func tokenize(src string) []token {
 					case tPunct:
 						block = p.s == ")" || p.s == ";" || p.s == "{" || p.s == "}" || p.s == "=>"
 						if p.s == ":" {
-							// label or case clause => block; property value => object literal
-							block = true
-							if len(toks) >= 3 {
-								q := toks[len(toks)-3]
-								if q.k == tPunct && (q.s == "{" || q.s == "," || q.s == "?") {
-									block = false
+							// label / case clause => block; property value or conditional branch => object
+							encl := byte('B')
+							if len(kinds) > 0 {
+								encl = kinds[len(kinds)-1]
+							}
+							block = false
+							if encl == 'B' && len(toks) >= 2 {
+								lab := toks[len(toks)-2]
+								if lab.k == tIdent && lab.s == "default" {
+									block = true
+								} else if lab.k == tIdent && !jsKeywords[lab.s] {
+									if len(toks) == 2 {
+										block = true
+									} else {
+										q := toks[len(toks)-3]
+										block = q.k == tPunct && (q.s == "{" || q.s == ";" || q.s == "}" || q.s == ")" || q.s == ":") || q.k == tIdent && (q.s == "else" || q.s == "do")
+									}
+								}
+								if !block {
+									// case <expr>: scan back for `case` before any statement boundary
+									for k := len(toks) - 2; k >= 0 && k > len(toks)-40; k-- {
+										u := toks[k]
+										if u.k == tIdent && u.s == "case" {
+											block = true
+											break
+										}
+										if u.k == tPunct && (u.s == ";" || u.s == "{" || u.s == "}" || u.s == "?") {
+											break
+										}
+									}
 								}
 							}
 						}
@@ -333,6 +362,12 @@ func tokenize(src string) []token {
 					}
 				}
 				stmtAfter = append(stmtAfter, block)
+				if block {
+					kinds = append(kinds, 'B')
+				} else {
+					kinds = append(kinds, 'O')
+				}
+				openBlock = block
 			case ")", "]", "}":
 				if matched == "}" {
 					brace--
@@ -342,8 +377,12 @@ func tokenize(src string) []token {
 					lastClosedStmt = stmtAfter[len(stmtAfter)-1]
 					stmtAfter = stmtAfter[:len(stmtAfter)-1]
 				}
+				if len(kinds) > 0 {
+					kinds = kinds[:len(kinds)-1]
+				}
 			}
-			toks = append(toks, token{k: tPunct, s: matched, pos: i, end: i + len(matched), nl: nl})
+			toks = append(toks, token{k: tPunct, s: matched, pos: i, end: i + len(matched), nl: nl, block: openBlock})
+			openBlock = false
 			i += len(matched)
 		}
 		if i == start { // safety against no progress
